@@ -25,6 +25,9 @@ type gSess struct {
 	pollPending bool
 	buffered    int
 	polledAtEnd bool
+	lingering   bool // a graceful close was requested: the generator keeps poking the session
+	closeReq    bool
+	closeReqAt  int  // elapsed virtual ms at the first close request
 	sent       []rmsg // Send calls made while the session was observed open
 	posted     []rmsg // well-formed messages submitted while open
 	reqs       map[int]string // request ordinal -> "poll" | "post" | "hs"
@@ -40,9 +43,10 @@ type sesGen struct {
 	now    int
 	eio3   bool
 	initial bool
+	silenceEnd bool // the scenario ended with a silence longer than every bound
 }
 
-func (g *sesGen) add(l string) { g.lines = append(g.lines, l) }
+func (g *sesGen) add(l ...string) { g.lines = append(g.lines, l...) }
 
 func randMsg(r *Rec) rmsg {
 	kind := []string{"t", "t", "b"}[r.rng.IntN(3)]
@@ -87,6 +91,16 @@ func famSesRand(t *testing.T, r *Rec) {
 		nops := 14 + r.rng.IntN(10)
 		for k := 0; k < nops; k++ {
 			g.step()
+		}
+		// one scenario in three ends with a long silence instead: every session must be closed by then
+		longSilence := r.rng.IntN(3) == 0
+		if longSilence {
+			g.add(fmt.Sprintf("ses adv %d", 30000+g.I+g.T+100))
+			g.now += 30000 + g.I + g.T + 100
+			g.silenceEnd = true
+			for _, ss := range g.sess {
+				ss.closeCause = true
+			}
 		}
 		// drain: let every live polling session poll once more, then a final look
 		for _, ss := range g.sess {
@@ -135,6 +149,43 @@ func (g *sesGen) step() {
 	live := g.live()
 	pick := func() *gSess { return live[r.rng.IntN(len(live))] }
 	c := r.rng.IntN(20)
+	var ling []*gSess
+	for _, s := range g.sess {
+		if s.lingering {
+			ling = append(ling, s)
+		}
+	}
+	if len(ling) > 0 && r.rng.IntN(3) == 0 {
+		// a session whose graceful close is under way: the client and the application keep going
+		ss := ling[r.rng.IntN(len(ling))]
+		switch r.rng.IntN(5) {
+		case 0, 1: // the client reads
+			if ss.transport == "polling" {
+				ss.reqs[g.nreq] = "poll"
+				ss.poll = g.nreq
+				g.nreq++
+				g.add(fmt.Sprintf("ses poll s%d", ss.ord))
+			} else {
+				g.add("ses obs")
+			}
+		case 2: // the client writes a message that must not be delivered any more
+			late := []epkt{{'4', "t", []byte("late")}}
+			if ss.transport == "polling" {
+				ss.reqs[g.nreq] = "post"
+				g.nreq++
+				g.add(fmt.Sprintf("ses post s%d t 1 %s", ss.ord, hx(g.encode(ss, late))))
+			} else {
+				g.add(fmt.Sprintf("ses frame %d t %s", ss.conn, hx([]byte("4late"))))
+			}
+		case 3: // the application sends (discarded)
+			g.add(fmt.Sprintf("ses send s%d t %s 1 0 -", ss.ord, hx([]byte("after-close"))))
+		default:
+			d := []int{1, 50, g.T + 1}[r.rng.IntN(3)]
+			g.add(fmt.Sprintf("ses adv %d", d))
+			g.now += d
+		}
+		return
+	}
 	switch {
 	case len(g.sess) == 0 || (c == 0 && len(g.sess) < 3):
 		proto := 4
@@ -265,10 +316,18 @@ func (g *sesGen) step() {
 	case c == 15:
 		ss := pick()
 		ss.closeCause = true
-		g.add(fmt.Sprintf("ses close s%d %s", ss.ord, b01(r.rng.IntN(2) == 0)))
+		discard := r.rng.IntN(2) == 0
+		ss.lingering = !discard
+		if !ss.closeReq {
+			ss.closeReq, ss.closeReqAt = true, g.now
+		}
+		g.add(fmt.Sprintf("ses close s%d %s", ss.ord, b01(discard)))
 	case c == 16 && r.rng.IntN(3) == 0:
 		for _, ss := range g.sess {
 			ss.closeCause = true
+			if !ss.closeReq {
+				ss.closeReq, ss.closeReqAt = true, g.now
+			}
 		}
 		g.add("ses shutdown")
 	case c == 17 && r.rng.IntN(2) == 0:
@@ -400,6 +459,9 @@ func monitorSession(r *Rec, g *sesGen, outs []string) {
 				}
 			case "message":
 				v.delivered = append(v.delivered, rmsg{e.args[0], unhx(e.args[1])})
+				if v.lastState == "closing" || v.lastState == "closed" {
+					r.Violate("C02", "C02/message-while-"+v.lastState, fmt.Sprintf("message event of s%d although the session was already %s before this operation: %s", k, v.lastState, out), replay)
+				}
 			case "flush":
 				v.flushes++
 				pendingFlush[e.who] = e.args[0]
@@ -557,6 +619,12 @@ func monitorSession(r *Rec, g *sesGen, outs []string) {
 		if !ss.closeCause && elapsed < g.I && v.lastState != "open" {
 			r.Violate("C03", "C03/closed-without-cause", fmt.Sprintf("s%d is %s although nothing that closes a session happened", ss.ord, v.lastState), all)
 		}
+		if ss.closeReq && v.lastState != "closed" && g.now-ss.closeReqAt >= g.I+g.T+50 {
+			r.Violate("C12", "C12/not-closed-in-bounded-time/"+ss.transport, fmt.Sprintf("s%d: close requested at %d ms, still %s at %d ms (heartbeat bound %d ms)", ss.ord, ss.closeReqAt, v.lastState, g.now, g.I+g.T), all)
+		}
+		if g.silenceEnd && v.lastState != "closed" && !ss.closeReq {
+			r.Violate("C07", "C07/silent-peer-not-closed/"+ss.transport, fmt.Sprintf("s%d is %s after %d ms of silence (ping interval %d, timeout %d)", ss.ord, v.lastState, 30000+g.I+g.T+100, g.I, g.T), all)
+		}
 		if v.lastState == "closed" && v.closes != 1 {
 			r.Violate("C03", fmt.Sprintf("C03/close-count=%d", v.closes), fmt.Sprintf("s%d is closed with %d close events", ss.ord, v.closes), all)
 		}
@@ -599,6 +667,7 @@ func monitorSession(r *Rec, g *sesGen, outs []string) {
 				for _, pq := range strings.Split(pendingAtEnd, ",") {
 					if pq == fmt.Sprint(q) {
 						r.Violate("C12", "C12/request-not-released/"+ss.reqs[q], fmt.Sprintf("s%d is closed but its %s request %d was never answered", ss.ord, ss.reqs[q], q), all)
+						r.Violate("C11", "C11/request-never-answered/"+ss.reqs[q], fmt.Sprintf("s%d is closed but its %s request %d was never answered", ss.ord, ss.reqs[q], q), all)
 					}
 				}
 			}
